@@ -198,12 +198,13 @@ def main():
             except fe.Machinery as ex:
                 chk.machinery(str(ex))
         plan = natural + firsts + st_cases + rest
-        results, not_run = fe.run_plan(plan, wall_cap, t0, seed=chk.seed)
+        results, not_run = fe.run_plan(plan, wall_cap, t0, seed=chk.seed,
+                                       batch=1000 if chk.thorough else 200)
         # --- evaluate
         classes = collections.Counter()
         by_fault = collections.defaultdict(collections.Counter)
         nontrivial = set()
-        samples = []
+        samples, sample_seen = [], set()
         viol = {}
         for case, res in results:
             sha = info[fe.cfg_key(dict(case, prior="absent"))]["sha"]
@@ -214,8 +215,9 @@ def main():
             by_fault[f"{mode_name(case)}:{kind}"][cls if not v else "violation"] += 1
             if cls in ("ok-nonzero", "ok-zero-complete", "violation", "hang"):
                 nontrivial.add((fe.cfg_name(case), json.dumps(fault or scen or st)))
-            if len(samples) < 6 and cls in ("ok-nonzero", "violation") and \
-                    case.get("id", 0) % 97 in (0, 1):
+            if (cls, kind) not in sample_seen and len(samples) < 12 and \
+                    (fault is None or res.get("fired")):
+                sample_seen.add((cls, kind))
                 samples.append({"config": fe.cfg_name(case), "fault": fault, "scenario": scen,
                                 "strace": st, "exit_status": res["rc"], "class": cls,
                                 "stage": res.get("stage"),
@@ -230,8 +232,7 @@ def main():
         for key, e in sorted(viol.items()):
             what, rec = e["first"]
             chk.violation(key, f"[{e['n']} cases in {len(e['cfgs'])} configurations] {what}", rec)
-        npoints = {fe.cfg_name(dict(prog=k[0], fork=k[1], threads=k[2], wmode=k[3], prior=k[4])):
-                   len(v["points"]) for k, v in info.items()}
+        npoints = {fe.key_name(k): len(v["points"]) for k, v in info.items()}
         chk.coverage = {
             "evaluations": len(results),
             "distinct_nontrivial": len(nontrivial),
